@@ -11,6 +11,7 @@ struct CState {
   std::map<int, std::map<i128, i128>> arr;   // array var -> offset -> value (absent = undefined)
   std::map<int, std::map<i128, i128>> mem;   // region var -> address -> value
   std::map<int, int> ref_site;               // ref var -> allocation site id (-1 unknown)
+  long next_obj = 1;                         // next fresh memory object (address = object * 4096 + offset)
 };
 
 enum Res { RS_OK = 0, RS_EXIT, RS_BLOCKED, RS_FAILED, RS_CUT, RS_BUDGET, RS_STUCK };
@@ -279,6 +280,68 @@ struct Exec {
     case S_ARR_ASSIGN: {
       auto cp = st.arr[s.a];
       st.arr[s.lhs] = cp;
+      return RS_OK;
+    }
+    // ---- regions and references: a reference is an address (0 = null, object*4096+offset), a
+    // region maps addresses to values; reads of never-written cells are out of model (cut);
+    // dereferencing null stops the execution (blocked)
+    case S_REGION_INIT: st.mem[s.lhs].clear(); return RS_OK;
+    case S_MAKE_REF:
+      st.v[s.lhs] = (i128)(st.next_obj++) * 4096;
+      st.ref_site[s.lhs] = s.id;
+      return RS_OK;
+    case S_REF_STORE: {
+      i128 addr = st.v[s.lhs];
+      if (addr == 0) return RS_BLOCKED;
+      st.mem[s.a][addr] = s.b_is_const ? (i128)s.k : st.v[s.b];
+      return RS_OK;
+    }
+    case S_REF_LOAD: {
+      i128 addr = st.v[s.a];
+      if (addr == 0) return RS_BLOCKED;
+      auto &m = st.mem[s.b];
+      auto it = m.find(addr);
+      if (it == m.end()) return cutr("load-undefined-cell");
+      st.v[s.lhs] = it->second;
+      return RS_OK;
+    }
+    case S_REF_GEP: {
+      i128 off;
+      if (!eval_exp(s.e1, st, off)) return cutr("overflow-guard");
+      if (st.v[s.a] == 0) return cutr("gep-on-null");
+      if (off < 0 || (st.v[s.a] % 4096) + off >= 4096) return cutr("gep-out-of-object");
+      st.v[s.lhs] = st.v[s.a] + off;
+      st.ref_site[s.lhs] = st.ref_site.count(s.a) ? st.ref_site[s.a] : -1;
+      return RS_OK;
+    }
+    case S_REF_ASSUME:
+    case S_REF_ASSERT: {
+      bool t = s.op == 0 ? st.v[s.a] == 0 : s.op == 1 ? st.v[s.a] != 0 : s.op == 2 ? st.v[s.a] == st.v[s.b] : st.v[s.a] != st.v[s.b];
+      obs.cond_eval(fi, bi, si, t, st);
+      if (s.kind == S_REF_ASSERT) {
+        obs.assert_eval(s.id, t, fi, bi, si, st);
+        return t ? RS_OK : RS_FAILED;
+      }
+      return t ? RS_OK : RS_BLOCKED;
+    }
+    case S_REF_TO_INT: st.v[s.lhs] = st.v[s.a]; return RS_OK;
+    case S_INT_TO_REF:
+      st.v[s.lhs] = st.v[s.a];
+      st.ref_site[s.lhs] = -1;
+      return RS_OK;
+    case S_REF_REMOVE: {
+      i128 addr = st.v[s.a];
+      if (addr == 0) return RS_OK;
+      i128 base = addr - (addr % 4096);
+      auto &m = st.mem[s.b];
+      for (auto it = m.begin(); it != m.end();)
+        if (it->first >= base && it->first < base + 4096) it = m.erase(it);
+        else ++it;
+      return RS_OK;
+    }
+    case S_REGION_COPY: {
+      auto cp = st.mem[s.a];
+      st.mem[s.lhs] = cp;
       return RS_OK;
     }
     case S_CALL: return exec_call(s, st);
